@@ -26,6 +26,7 @@ def run_c17(R, tier, rng):
     C = Ctx(R, "rl2d")
     from vlib import show as vshow, oracle as voracle, parse as vparse
     ANY_CASES = []
+    MEAN_CASES = []
     n_obj = 900 if tier == "thorough" else 220
     # float column sums with values whose differences are not representable (F38): numpy's own column sums of the dense rows, bit for bit
     FV = [0.1, 0.2, 1e16, -1e16, 0.5, 1.0, 0.3, 0.7]
@@ -128,6 +129,12 @@ def run_c17(R, tier, rng):
             C.cmp(f"sum(axis=0) {tag}", "col-sum", nt, lambda: num(mk().sum(axis=0).to_array(), colsum()), lambda: kl(colsum()), py=pyb + "; rl.sum(axis=0).to_array()")
             C.cmp(f"mean(axis=0) {tag}", "col-mean", nt, lambda: kl(np.asarray(mk().mean(axis=0).to_array(), dtype=float)), lambda: kl(np.array([float(s) / c for s, c in zip(colsum().astype(float) if dt != "uint64" else colsum(), counts)])),
                   py=pyb + "; rl.mean(axis=0).to_array()")
+        if dt != "bool" and not dt.startswith("float") and all(abs(int(v)) < 2 ** 40 for a in A for v in a):
+            # mean(axis=0) against the model of `sum(axis=0) / col_counts()` (Model/RL2Mean.v: the binary path on the two column arrays; exact boundaries)
+            def meanrepr():
+                r = mk().mean(axis=0)
+                return [[int(x) for x in np.asarray(r._events)], kl(np.asarray(r._values, dtype=float)), kl(np.asarray(r.to_array(), dtype=float))]
+            MEAN_CASES.append(("rl2_mean " + vshow([[int(v) for v in a] for a in A]), guarded(meanrepr), tag, pyb, nt))
         if dt != "bool":      # the numpy function spellings of the column aggregates: axis as keyword, positionally, and as -2
             for spname, sp in (("np.sum(rl, axis=0)", lambda r: np.sum(r, axis=0)), ("np.sum(rl, 0)", lambda r: np.sum(r, 0)), ("rl.sum(axis=-2)", lambda r: r.sum(axis=-2))):
                 C.cmp(f"{spname} {tag}", "col-sum/spelling", nt, lambda: num(sp(mk()).to_array(), colsum()), lambda: kl(colsum()), py=pyb + f"; {spname}.to_array()")
@@ -262,6 +269,18 @@ def run_c17(R, tier, rng):
         st = [rng.randrange(0, L) for _ in range(k)]; en = [rng.randint(s0 + 1, L) for s0 in st]
         C.cmp(f"from_intervals {st} {en} {L}", "intervals", k >= 2, lambda: kl(np.asarray(RunLength2dArray.from_intervals(np.array(st), np.array(en), L).to_array(), dtype=bool)),
               lambda: [[s0 <= p < e0 for p in range(L)] for s0, e0 in zip(st, en)], py=f"RunLength2dArray.from_intervals(np.array({st}), np.array({en}), {L}).to_array()")
+    # mean(axis=0) of the ragged variant: the extracted model (values as exact fractions sum/count) and the dense specification
+    outs = voracle([c[0] for c in MEAN_CASES])
+    fr = lambda ps: kl(np.array([np.float64(a) / np.float64(b) for a, b in ps], dtype=float))
+    for (line, impl, tag, pyb, nt), o in zip(MEAN_CASES, outs):
+        if o.startswith("ERR"): mo = sp = "oracle-error: " + o[:80]
+        else:
+            m, spd = vparse(o)
+            if m is None: mo = sp = "model refuses"
+            else:
+                mo = [m[0], fr(m[1]), fr(m[2])]
+                sp = mo if fr(m[2]) == fr(spd) else ["model decodes to", fr(m[2]), "dense column means are", fr(spd)]
+        R.record("rl2d mean(axis=0) runs " + tag, impl, mo, sp, nt, "col-mean/model", py=pyb + "; r = rl.mean(axis=0); r._events, r._values, r.to_array()")
     # any(axis=0): the extracted model of _col_any and the dense specification, one oracle call for all matrices
     outs = voracle([c[0] for c in ANY_CASES])
     for (line, impl, mtag, pym, nt), o in zip(ANY_CASES, outs):
